@@ -3,6 +3,7 @@ import JSight.Model.Build
 import JSight.Model.PathBind
 import JSight.Model.SchemaContent
 import JSight.Model.Project
+import JSight.Model.Json
 /-!
 Line-protocol driver of the catalog-construction model (`Model/Build.lean`).
 
@@ -11,6 +12,10 @@ Line-protocol driver of the catalog-construction model (`Model/Build.lean`).
            named = name=hex,name=hex…   unnamed = hex,hex…   body = "n" (none) | "b<hex>"
          | "-"                                                                       closes it
   → ok <skeleton>  |  err <directive id> <message class>
+
+  buildjson <banned> <tok>… {P<id>;<prefix hex>:<name hex>,…;<prop hex>,…}      (the Path directives, as for `bind`)
+  → ok <canonical text of the rendered JSON tree (`Model/Json.lean`: `Json.text (render (extraOf …) catalog)`)>
+    | err <directive id> <message class>
 
   project <banned kind indices or -> <hex content> <oracle entries…>      (the composed model, `Model/Project.lean`)
      oracle entry:  s:<cur>:<len> | s:<cur>:e<pos> | e:<cur>:<len> | e:<cur>:e<pos>
@@ -349,6 +354,15 @@ def handle (line : String) : String :=
   | "project" :: banned :: content :: orc => handleProject banned content orc
   | "content" :: toks => handleContent toks
   | "bind" :: toks => handleBind toks
+  | "buildjson" :: banned :: toks =>
+    let bans : List Kind := if banned == "-" then [] else (banned.splitOn ",").filterMap fun s => s.toNat?.bind fun i => Kind.all[i]?
+    let pvs := (toks.filter (·.startsWith "P")).mapM fun t => parsePV (t.drop 1).toString
+    match parseForest 0 (toks.filter (!·.startsWith "P")), pvs with
+    | some (forest, [], _), some pvs =>
+      match compile bans forest with
+      | .ok c => "ok " ++ (Json.render (Json.extraOf forest pvs) c).text
+      | .error e => "err " ++ toString e.id ++ " " ++ showMsg e.msg
+    | _, _ => "bad-op"
   | "build" :: banned :: toks =>
     let bans : List Kind := if banned == "-" then [] else (banned.splitOn ",").filterMap fun s => s.toNat?.bind fun i => Kind.all[i]?
     match parseForest 0 toks with
